@@ -66,7 +66,12 @@ def gen_case(rng: random.Random, tier: str) -> dict:
             if wrap[target]:
                 scen = "ok"
             else:
-                change = {"kind": "num", "dtype": "float64", "values": [round(rng.gauss(0, 1), 5) for _ in range(m)]}
+                # any numerical dtype (floats, integers, booleans) is a change of kind for a factor recorded as categorical
+                change = rng.choice([
+                    {"kind": "num", "dtype": "float64", "values": [round(rng.gauss(0, 1), 5) for _ in range(m)]},
+                    {"kind": "num", "dtype": rng.choice(["int64", "Int64", "uint8", "float32"]), "values": [float(rng.randint(0, 3)) for _ in range(m)]},
+                    {"kind": "bool", "dtype": rng.choice(["bool", "boolean"]), "values": [rng.random() < 0.5 for _ in range(m)]},
+                ])
         else:
             change = catspec([rng.choice("pq") for _ in range(m)], rng.choice(["category", "object", "str"]), ["p", "q"])
     elif scen in ("lost", "new", "new_null"):
